@@ -880,8 +880,19 @@ func c10ZeroLengthFirst(c *eng.Ctx, r *eng.Report) {
 		}
 		nonZero := false
 		for _, cd := range eng.EdgeConds(blk) {
-			if m, isM := cd.Cmp(); isM && m.X == ssa.Value(length) {
-				if k, isK := eng.ConstInt(m.Y); isK && k == 0 && (m.Op == token.NEQ || m.Op == token.GTR) {
+			m, isM := cd.Cmp()
+			if !isM {
+				continue
+			}
+			x, y, op := m.X, m.Y, m.Op
+			if y == ssa.Value(length) { // 0 == length64
+				x, y = y, x
+				if op == token.LSS {
+					op = token.GTR
+				}
+			}
+			if x == ssa.Value(length) {
+				if k, isK := eng.ConstInt(y); isK && k == 0 && (op == token.NEQ || op == token.GTR) {
 					nonZero = true
 				}
 			}
